@@ -81,6 +81,15 @@ class StepDeque(collections.deque):
     def popleft(self):
         c = self.conv
         c.steps += 1
+        c.clock.now = c.clock.now + c.tick
+        st = c.prov.timer._start_time
+        if st is not None:
+            c.armed_at = st
+        if c.idle_at is None and c.armed_at is not None and st is None \
+                and c.prov.state_machine.current_state == ST.STA_1:
+            c.idle_at = c.clock.now
+        if c.kill_at is not None and c.steps - 1 >= c.kill_at:
+            c.prov.is_killed = True
         if c.steps >= c.budget:
             c.over_budget = True
             c.prov.is_killed = True
@@ -108,6 +117,11 @@ class Conversation(object):
         self.delay = 0               # idle loop iterations before the peer's first bytes become readable
         self.recv_size = None        # if set: the provider's recv() size (its max_pdu_length attribute)
         self.first_peer_done = False
+        self.tick = 0                # seconds added to the clock per loop iteration (may be symbolic)
+        self.armed_at = None         # instant at which ARTIM was last started
+        self.idle_at = None          # instant at which the provider was first seen idle after ARTIM had been armed
+        self.kill_at = None          # loop iteration at which the termination flag is raised
+        self.drop_none = False
 
     # -- helpers -------------------------------------------------------------------------------
     def n_sent(self):
@@ -151,7 +165,10 @@ class Conversation(object):
                 self.closed_by_peer = True
                 return b''
             for s in self.segmenter(i, payload):
-                self.segs.append(s)
+                if s is not None:
+                    self.segs.append(s)
+            if not self.segs:
+                return self.peer_recv(sock, n)       # the turn delivered nothing: go on to the next one
         seg = self.segs.popleft()
         if len(seg) > n:
             self.segs.appendleft(seg[n:])
@@ -159,23 +176,39 @@ class Conversation(object):
         return seg
 
     # -- user side -----------------------------------------------------------------------------
+    def user_gave_up(self):
+        """the local user issues nothing more once it has been told that the association is refused, aborted or
+        released (primitives after that point are not legal user behaviour)"""
+        for x in self.prov.to_service_user.log:
+            if getattr(x, 'pdu_type', None) in (3, 6, 7):
+                return True
+        return False
+
     def user_next(self):
         nx = self._next(('user',))
         if nx is None:
             return None
         i, kind, payload, gate = nx
-        if self.n_ind() < gate:
+        if self.n_ind() < gate or self.user_gave_up():
             return None
         self.done_turn[i] = True
         return payload() if callable(payload) else payload
 
     def finished(self):
+        """idle, and nothing more can happen: no bytes in flight, no peer turn whose gate is reached, no user
+        primitive that is enabled"""
         if self.segs:
             return False
-        for d in self.done_turn:
-            if not d:
-                return False
-        return self.prov.state_machine.current_state == ST.STA_1
+        if self.prov.state_machine.current_state != ST.STA_1 or self.prov.dul_socket is not None:
+            return False
+        for i, (kind, payload, gate) in enumerate(self.turns):
+            if self.done_turn[i]:
+                continue
+            if kind == 'user':
+                if self.n_ind() >= gate and not self.user_gave_up():
+                    return False
+            # undelivered peer turns cannot arrive any more: the connection is gone
+        return True
 
     # -- running -------------------------------------------------------------------------------
     def run(self, first_ready=True):
